@@ -37,7 +37,8 @@ FLOORS = {"pairs:verdict-match": 0.2, "pairs:verdict-nomatch": 0.2, "pairs:has-c
 CLASS_NAMES = ["ASTNode", *[c for c in M.CLASS_NAMES if c != "BombNode"]]
 # (`children` is a field of one class only; on every other class the name is the convenience property, which
 # builds a new list on every access - "the very object matched" has no meaning for it: kept out of raw patterns)
-ALL_FIELDS = sorted({f.name for c in M.TABLE for f in c.fields if c.name != "BombNode"} - {"children"})
+# (`alias` is a plain property of one class, `KIND` a class-level constant: attributes that exist without being fields)
+ALL_FIELDS = sorted(({f.name for c in M.TABLE for f in c.fields if c.name != "BombNode"} - {"children"}) | {"alias", "KIND"})
 SEQ_OK_FIELDS = sorted({f.name for c in M.TABLE for f in c.fields
                         if c.name != "BombNode" and (f.is_child or f.kind in ("int", "optint", "tint"))} - {"children"})
 REGEXES = ["", ".*", "\\d+", "a", "1", "True", "None", "Color", "\\(", "[ab]+", "x y", "-?\\d", "b", "a b", "ab", "x y$", "a b", "x y", "a  b",
@@ -457,6 +458,36 @@ def check_case(data: dict, lab: Labels) -> None:
             lab.count("multi")
 
 
+    # a large rule set (16-40 rules): the case's patterns repeated under other names, with catch-all rules
+    # (`(*)`, `(Base)`, the node's own class) at drawn places - still the first matching rule in the given order
+    big = data.get("big")
+    if big:
+        fillers = [{"t": "tree", "classes": ["*"], "fields": []}, {"t": "tree", "classes": ["Base"], "fields": []},
+                   {"t": "tree", "classes": [type(srcs[0]).__name__ if type(srcs[0]).__name__ in CLASS_NAMES else "Mixed"], "fields": []},
+                   {"t": "tree", "classes": ["LeafA", "Mixed"], "fields": []}]
+        plist = [pats[k % len(pats)] if k % 5 else fillers[(k // 5) % len(fillers)] for k in big]
+        bdefs = [(f"b{j}", P.render(pp, 0)) for j, pp in enumerate(plist)]
+        bm = MultiPatternMatcher(bdefs)
+        for node in [srcs[0], srcs[-1], lives[data["others"][0] % len(lives)], lives[0]]:
+            exp = None
+            for (rn, _), pp in zip(bdefs, plist):
+                ok, caps = P.ref_match(pp, node, {}, is_node, isinstance_of)
+                if ok:
+                    exp = (rn, caps)
+                    break
+            got = bm.match(node)
+            if exp is None:
+                require(got is None, "multi-no-rule-should-match", f"{len(bdefs)} rules: {got!r:.200}")
+            else:
+                require(got is not None and got[0] == exp[0], "multi-first-matching-rule",
+                        f"{len(bdefs)} rules {[t for _, t in bdefs]!r:.600} on {type(node).__name__}: "
+                        f"{None if got is None else got[0]} expected {exp[0]}")
+                d_ = _same_caps(dict(got[1]), exp[1])
+                require(d_ is None, "multi-captures", f"{len(bdefs)} rules, rule {exp[0]}: {d_}")
+            lab.count("multi")
+        lab.tag("multi-16-or-more-rules")
+
+
 def st_case(ctx: Ctx):
     g = T.TreeGen(leaves=ctx.pick(8, 12), origin_rate=0.3, falsy=True, extra_leaves=("Vals", "Vals", "Strs"))
     raw = st.tuples(st.just("raw"), st_raw_pattern(), st.integers(0, 1000), st.integers(0, 60)).map(list)
@@ -467,6 +498,7 @@ def st_case(ctx: Ctx):
             "pats": st.lists(st.one_of(raw, derived, derived), min_size=3, max_size=3),
             "others": st.lists(st.integers(0, 60), min_size=2, max_size=2),
             "order": st.lists(st.integers(0, 2), min_size=1, max_size=4),
+            "big": st.one_of(st.none(), st.lists(st.integers(0, 60), min_size=16, max_size=40)),
         }
     )
 
